@@ -145,7 +145,7 @@ theorem Seg.encode_resHeaded (tbl : EscTable) (h : Header) (ns : List Str) :
   · rfl
   · split
     next h1 => simp at h1; simp [h1]
-    next h1 => simp at h1; simp [h1]
+    next h1 => simp at h1; simp
 
 theorem noWs_bodyText {as : List Action} {f : Option Str} (has : ∀ x ∈ encodeActions T as, NoWs x)
     (hf : ∀ x, f = some x → NoWs x) : NoWs (bodyText T as f) := by
